@@ -309,6 +309,74 @@ func skeleton(fset *token.FileSet, fd *ast.FuncDecl) []string {
 	return out
 }
 
+// ---- a small translator: the body of Run.Do as a list of F1.Lifecycle.Stmt (statement order and defers) ----
+
+func calleeName(e ast.Expr) string {
+	c, ok := e.(*ast.CallExpr)
+	if !ok {
+		return ""
+	}
+	switch f := c.Fun.(type) {
+	case *ast.SelectorExpr:
+		return f.Sel.Name
+	case *ast.Ident:
+		return f.Name
+	}
+	return ""
+}
+
+var deferActs = map[string]string{"Close": "closeLog", "printSummary": "printSummary", "teardownActiveScenario": "teardown"}
+var callActs = map[string]string{"Display": "welcome", "Reset": "resetMetrics", "Setup": "setup", "pushMetrics": "pushMetrics",
+	"RecordStarted": "recordStarted", "Start": "startProgress", "run": "runAndWait", "Stop": "stopProgress",
+	"close": "stopPushTicker", "GetTotals": "getTotals", "reportSetupFailure": "reportSetupFailure"}
+
+func actOf(m map[string]string, name string) string {
+	if a, ok := m[name]; ok {
+		return "." + a
+	}
+	return ".other"
+}
+
+func translateDo(fd *ast.FuncDecl) []string {
+	var out []string
+	for _, st := range fd.Body.List {
+		switch s := st.(type) {
+		case *ast.DeferStmt:
+			out = append(out, ".defer "+actOf(deferActs, calleeName(s.Call)))
+		case *ast.ExprStmt:
+			out = append(out, ".act "+actOf(callActs, calleeName(s.X)))
+		case *ast.GoStmt:
+			out = append(out, ".act .startPushTicker")
+		case *ast.IfStmt:
+			// `if … { …; return … }`: the calls of the branch, then the function returns
+			n := len(s.Body.List)
+			if n > 0 {
+				if ret, ok := s.Body.List[n-1].(*ast.ReturnStmt); ok {
+					var acts []string
+					for _, b := range s.Body.List[:n-1] {
+						if es, ok := b.(*ast.ExprStmt); ok {
+							acts = append(acts, actOf(callActs, calleeName(es.X)))
+						}
+					}
+					for _, r := range ret.Results {
+						if nm := calleeName(r); nm != "" {
+							acts = append(acts, actOf(callActs, nm))
+						}
+					}
+					out = append(out, ".retIf ["+strings.Join(acts, ", ")+"]")
+					continue
+				}
+			}
+			out = append(out, ".act .other")
+		case *ast.AssignStmt, *ast.DeclStmt, *ast.ReturnStmt:
+			// pure constructions (views, contexts, channels) and the final return
+		default:
+			out = append(out, ".act .other")
+		}
+	}
+	return out
+}
+
 func main() {
 	repo := "/repo"
 	if len(os.Args) > 1 {
@@ -408,5 +476,21 @@ func main() {
 		return r
 	}(), ", "))
 	out.WriteString("end F1.Generated\n")
+	// second generated file: Run.Do translated
+	out.WriteString("-- ===FILE DoBody.lean===\n")
+	out.WriteString("/- GENERATED by /verif/facts (translator for Run.Do) from the current /repo working tree. Do not edit; never committed. -/\nimport F1Verif.Model.Lifecycle\nnamespace F1.Generated\nopen F1.Lifecycle\n\n")
+	stmts := []string{}
+	{
+		fset := token.NewFileSet()
+		af, err := parser.ParseFile(fset, filepath.Join(repo, "internal/run/test_runner.go"), nil, 0)
+		if err == nil {
+			for _, d := range af.Decls {
+				if fd, ok := d.(*ast.FuncDecl); ok && fd.Name.Name == "Do" && recvName(fd) == "Run" && fd.Body != nil {
+					stmts = translateDo(fd)
+				}
+			}
+		}
+	}
+	out.WriteString("def doBody : List Stmt := [\n  " + strings.Join(stmts, ",\n  ") + "]\n\nend F1.Generated\n")
 	fmt.Print(out.String())
 }
